@@ -42,6 +42,10 @@ pub const FP_SOCK_READ: u32 = 8;
 /// (a: 0 = new thread started for the task, 1 = task queued for an idle worker; b: queue length)
 pub const FP_POOL_DISPATCH: u32 = 9;
 
+/// lib.rs, `Drop for Server`: the wake-up connection to the own listener has just been made
+/// (the accept thread is being woken while the rest of the drop has not run yet)
+pub const FP_DROP_WOKE_ACCEPT: u32 = 10;
+
 /// Installs (or removes) the failpoint hook.
 pub fn set_hook(hook: Option<Hook>) {
     let mut slot = HOOK.write().unwrap();
